@@ -24,15 +24,20 @@ type Config struct {
 	PStart, PEnd, PPS int
 	NIPs, NSubs       int
 	LogMode           string // "bulk" (RFC 6908 port-block records) | "plain" (allocate/deallocate records)
+	ByRange           bool   // configure the public addresses with one AddPublicIPRange call instead of one AddPublicIP each
 }
 
 func (c Config) Name() string {
-	return fmt.Sprintf("nat.Manager/%d-%d-%d/ips%d/subs%d/%s", c.PStart, c.PEnd, c.PPS, c.NIPs, c.NSubs, c.LogMode)
+	n := fmt.Sprintf("nat.Manager/%d-%d-%d/ips%d/subs%d/%s", c.PStart, c.PEnd, c.PPS, c.NIPs, c.NSubs, c.LogMode)
+	if c.ByRange {
+		n += "/range"
+	}
+	return n
 }
 
 func (c Config) Map() map[string]any {
 	return map[string]any{"impl": "nat.Manager", "nsubs": c.NSubs, "nips": c.NIPs, "pstart": c.PStart, "pend": c.PEnd,
-		"pps": c.PPS, "logmode": c.LogMode}
+		"pps": c.PPS, "logmode": c.LogMode, "byrange": c.ByRange}
 }
 
 // ConfigFromMap rebuilds a Config from the cfg record of a bundle / replay file.
@@ -42,7 +47,7 @@ func ConfigFromMap(m map[string]any) Config {
 		s = "bulk"
 	}
 	return Config{PStart: toInt(m["pstart"]), PEnd: toInt(m["pend"]), PPS: toInt(m["pps"]), NIPs: toInt(m["nips"]),
-		NSubs: toInt(m["nsubs"]), LogMode: s}
+		NSubs: toInt(m["nsubs"]), LogMode: s, ByRange: m["byrange"] == true}
 }
 
 func toInt(v any) int {
@@ -175,9 +180,15 @@ func (s *System) New() core.Instance {
 	if err != nil {
 		panic(err)
 	}
-	for i := 1; i <= c.NIPs; i++ {
-		if err := m.AddPublicIP(pubIP(i)); err != nil {
+	if c.ByRange {
+		if err := m.AddPublicIPRange(pubIP(1), pubIP(c.NIPs)); err != nil {
 			panic(err)
+		}
+	} else {
+		for i := 1; i <= c.NIPs; i++ {
+			if err := m.AddPublicIP(pubIP(i)); err != nil {
+				panic(err)
+			}
 		}
 	}
 	lg, err := bngnat.NewLogger(bngnat.LoggerConfig{Enabled: true, Format: bngnat.LogFormatJSON, BulkLogging: c.LogMode == "bulk",
